@@ -229,6 +229,19 @@ func RandomWill(r *gen.RNG) (*mq.Publish, func(a *ref.Packet)) {
 		w.AddUserProp(k, v)
 		props = append(props, ref.Prop{ID: 0x26, S: k, V: v})
 	}
+	if r.Chance(1, 6) {
+		// a received PUBLISH reused as the will: fields a will cannot carry
+		switch r.Intn(4) {
+		case 0:
+			w.SetTopicAlias(uint16(1 + r.Intn(9)))
+		case 1:
+			w.AddSubscriptionID(uint32(1 + r.Intn(200)))
+		case 2:
+			w.SetPacketID(uint16(1 + r.Intn(9)))
+		default:
+			w.SetDuplicate(true)
+		}
+	}
 	return w, func(a *ref.Packet) {
 		a.ConnFlags |= ref.CFWill
 		a.ConnFlags &^= ref.CFWillQoS | ref.CFWillRetain
